@@ -206,8 +206,9 @@ def run(prop, tier, seed, out):
                 raise Broken("the inductive step still holds when RemovePipeline releases nothing (vacuous): " + r)
             out.coverage["apalache_obligations_discharged"] = [nm for nm, _ in obligations]
             out.notes.append("Apalache: IndInv (RefcMatches, ListedAreRegistered, ...) is inductive for RegistryInd: the accounting holds for histories of any length")
-        if prop == "C07":
-            # overwrites racing with Sends: every Send is processed by exactly one version (never both, never neither)
+        if prop in ("C05", "C06", "C07"):
+            # concurrent clients: overwrites racing with Sends (every Send is processed by exactly one version), DenyOverwrite races,
+            # conflicting registry calls released from a barrier (results and final state of one of the two sequential orders)
             hp, rp = scr.path("c07.ndjson"), scr.path("c07.json")
             p = run_vh(vh, ["conc-record", "-seed", str(seed), "-n", "2", "-rounds", "10", "-hist", hp, "-out", rp], timeout=900)
             if p.returncode != 0:
@@ -217,9 +218,11 @@ def run(prop, tier, seed, out):
                     raise Broken("conc-record failed: " + p.stderr[-1000:])
             else:
                 for pr in json.load(open(rp))["problems"]:
-                    if pr["prop"] == "C07":
+                    if pr["prop"] == prop:
                         out.violation(pr["what"], pr)
-                out.coverage["overwrite_stress"] = "8 senders vs one overwriting client for 400 ms"
+                    else:
+                        out.notes.append("concurrent stress problem attributed to %s (not %s): %s" % (pr["prop"], prop, pr["what"][:140]))
+                out.coverage["concurrent_stress"] = "overwrite stress (8 senders vs one overwriting client, 400 ms), DenyOverwrite races, shared-node removals, atomicity races of conflicting calls"
         if vrep and prop == "C05":
             for m in vrep["mismatches"] or []:
                 out.violation("validate: %s: expected %s, real broker %s" % (m["what"], json.dumps(m["expected"])[:200], json.dumps(m["observed"])[:300]), m)
